@@ -5,6 +5,8 @@ package main
 // clauses; collision freeness ("ideal") only by instances at harness supplied witnesses.
 
 import (
+	"fmt"
+	"os"
 	"go/types"
 
 	"golang.org/x/tools/go/ssa"
@@ -31,12 +33,34 @@ func sameRegion(a, b Region) bool {
 	return a.node == b.node && a.off == b.off && a.n == b.n
 }
 
+// synDistinct: the regions certainly differ (concrete different lengths, or equal concrete
+// length with two different constant bytes at some index).
+func (ex *Exec) synDistinct(a, b Region) bool {
+	if !a.n.isConst || !b.n.isConst {
+		return false
+	}
+	if a.n.cv != b.n.cv {
+		return true
+	}
+	if a.n.cv > 20000 {
+		return false
+	}
+	c := ex.ctx
+	for i := uint64(0); i < a.n.cv; i++ {
+		x, y := ex.regAt(a, c64(c, i)), ex.regAt(b, c64(c, i))
+		if x != y && x.isConst && y.isConst {
+			return true
+		}
+	}
+	return false
+}
+
 // synEqual: both regions have the same concrete length and byte-wise identical terms.
 func (ex *Exec) synEqual(a, b Region) bool {
 	if sameRegion(a, b) {
 		return true
 	}
-	if !a.n.isConst || !b.n.isConst || a.n.cv != b.n.cv || a.n.cv > 4096 {
+	if !a.n.isConst || !b.n.isConst || a.n.cv != b.n.cv || a.n.cv > 20000 {
 		return false
 	}
 	c := ex.ctx
@@ -90,6 +114,37 @@ func (ex *Exec) applyHash(fn string, outBits int, ideal bool, parts ...Region) *
 		}
 	}
 	out := c.Fresh("h_"+fn, BV(outBits))
+	if os.Getenv("VERIF_HASHDBG") != "" {
+		fmt.Printf("HASH %s new app %s parts=%d\n", fn, out.name, len(parts))
+		for k, p := range parts {
+			fmt.Printf("   part %d len=%s off=%s\n", k, c.Inline(p.n), c.Inline(p.off))
+		}
+		for _, prev := range ex.hashApps[fn] {
+			for k := range parts {
+				if k < len(prev.parts) && !ex.synEqual(prev.parts[k], parts[k]) {
+					a, b := prev.parts[k], parts[k]
+					msg := "len differs"
+					if a.n.isConst && b.n.isConst && a.n.cv == b.n.cv {
+						for i := uint64(0); i < a.n.cv; i++ {
+							x, y := ex.regAt(a, c64(c, i)), ex.regAt(b, c64(c, i))
+							if x != y {
+								sx, sy := c.Inline(x), c.Inline(y)
+								if len(sx) > 150 {
+									sx = sx[:150]
+								}
+								if len(sy) > 150 {
+									sy = sy[:150]
+								}
+								msg = fmt.Sprintf("byte %d: %s  VS  %s", i, sx, sy)
+								break
+							}
+						}
+					}
+					fmt.Printf("   vs %s part %d: %s\n", prev.out.name, k, msg)
+				}
+			}
+		}
+	}
 	app := &hashApp{parts: parts, out: out, ideal: ideal}
 	for _, prev := range ex.hashApps[fn] {
 		if len(prev.parts) != len(parts) {
@@ -103,6 +158,23 @@ func (ex *Exec) applyHash(fn string, outBits int, ideal bool, parts ...Region) *
 		eqOut := c.Eq(prev.out, out)
 		ex.addAxiom(c.Or(append(diffs, eqOut)...))
 		if ideal {
+			// inputs that provably differ (different lengths, or two different constant bytes
+			// at some index) have different outputs
+			distinct := false
+			for k := range parts {
+				if ex.synDistinct(prev.parts[k], parts[k]) {
+					distinct = true
+				}
+			}
+			if distinct {
+				if outBits > 128 {
+					// truncated MACs/hashes (first 16 bytes) are ideal as well
+					ex.addAxiom(c.Not(c.Eq(c.Extract(prev.out, outBits-1, outBits-128), c.Extract(out, outBits-1, outBits-128))))
+				} else {
+					ex.addAxiom(c.Not(eqOut))
+				}
+				continue
+			}
 			// collision freeness instances at the registered witnesses
 			for k := range parts {
 				a, b := prev.parts[k], parts[k]
